@@ -306,3 +306,31 @@ func TestVerifC13HTTPServer(t *testing.T) {
 		})
 	})
 }
+
+// TestVerifReproC13HTTPServer: standalone reproductions (not part of the check). A sub-test fails
+// when an accepted spec panics; all three inputs are rejected since /repo commit 40fcbec.
+func TestVerifReproC13HTTPServer(t *testing.T) {
+	super, mapper := vfHSWorld(t)
+	cases := []struct{ name, yaml string }{
+		{"fixed/rules-null", "rules: [null]\n"},
+		{"fixed/paths-null", "rules:\n- paths: [null]\n"},
+		{"fixed/headers-null", "rules:\n- paths:\n  - backend: pl1\n    headers: [null]\n"},
+	}
+	for _, c := range cases {
+		c := c
+		t.Run(c.name, func(t *testing.T) {
+			text := fmt.Sprintf("name: hs\nkind: HTTPServer\nport: %d\nkeepAlive: true\nhttps: false\n%s", vfPickPort(), c.yaml)
+			spec, err := super.NewSpec(text)
+			if err != nil {
+				t.Logf("rejected by validation: %v", err)
+				return
+			}
+			m := newMux(httpstat.New(), httpstat.NewTopN(topNum), mapper)
+			if p, txt, site := vfHSRecover(func() { m.reload(spec, mapper) }); p {
+				t.Errorf("REPRODUCED mux.reload panics: key=[kind=HTTPServer site=%s panic=%s] text=%q", site, vfPanicClass(txt), txt)
+				return
+			}
+			t.Logf("accepted and applied without a panic")
+		})
+	}
+}
